@@ -140,7 +140,10 @@ def c08_combiner(o, nid, nr, T):
                 o.violate("C08", "offer-instant", o.nlabel(nid), f"{nid}: pallet {l['item']} complete at {start}, delay {d}, but downstream first asked at {t1}")
                 return
         if l["leave_t"] is None:
-            break
+            if nr.blocking or f > T:
+                break
+            prev_leave = f          # a non-blocking combiner is rid of its unit in the finish instant, pushed or dropped (C09)
+            continue
         prev_leave = l["leave_t"]
     o.probe("c08_combiner_checked")
 
